@@ -23,6 +23,8 @@ import ast
 import z3
 
 from .common import *
+from pyvc.lib import dict_parts
+from pyvc.state import QFact
 from pyvc import lib as L
 
 ASYNC = "helpers/asynchrony.py"
@@ -315,13 +317,20 @@ class _Mimic(Contract):
     readonly = z3.Function("C18.readonly", Val, Val, B)
     assumptions = ("__name__, __doc__ and __wrapped__ are writable on the wrapper objects the decorators use (functions, "
                    "instances, functools.partial) and every wrapped function has __name__ and __doc__",
-                   "`__dict__.update` and the `__annotations__` merge of _mimic_async are not modelled (treated as absent): "
-                   "they do not touch the three attributes of the statement")
+                   "attributes of the wrapper live in one map (its __dict__): slots / descriptors of function objects are not "
+                   "distinguished; entries of the wrapped callable's __dict__ are attributes of it (same values)",
+                   "the `__annotations__` merge of _mimic_async is not modelled (treated as absent): it does not touch the "
+                   "attributes of the statement")
 
     def attr(self, it, obj, name, node):
         if obj.eq(self.fn) or obj.eq(self.target):
-            if name in ("__dict__", "__annotations__"):
+            if name == "__annotations__":
                 raise PyRaise(it.new_exc("AttributeError"), f"{name} is not modelled: treated as absent")
+            if name == "__dict__":
+                which = "function" if obj.eq(self.fn) else "wrapper"
+                if it.st.fork(f"{which}.__dict__", [("present", True), ("absent", True)]) == 1:
+                    raise PyRaise(it.new_exc("AttributeError"), "object without __dict__")
+                return self.fdict if obj.eq(self.fn) else self.tdict
             return self.attr_sym(it, obj, it.mk_str(name), node)
         return None
 
@@ -345,60 +354,93 @@ class _Mimic(Contract):
             raise Unsupported("setattr on an unexpected object")
         if st.decide(self.readonly(obj, name), "setattr:readonly"):
             raise PyRaise(it.new_exc("AttributeError"), "read-only attribute")
-        g = st.ghost
-        g["w_has"] = z3.Store(g["w_has"], name, True)
-        g["w_val"] = z3.Store(g["w_val"], name, val)
+        p = dict_parts(it, self.tdict)
+        st.put(self.tdict, "$dhas", z3.Store(p["has"], name, True))
+        st.put(self.tdict, "$dval", z3.Store(p["val"], name, val))
+
+    def wf_dict(self, it, d, tag):
+        st = it.st
+        p = dict_parts(it, d)
+        st.assume(p["lo"] <= p["hi"])
+        return p
 
     def base(self, it):
         st = it.st
         self.fn = st.fresh_val("function")
         self.target = st.fresh_val("target")
         st.assume(self.fn != self.target)
-        st.ghost["w_has"] = z3.K(Val, z3.BoolVal(False))
-        st.ghost["w_val"] = z3.K(Val, V.VNone)
+        # the wrapper's attribute map: whatever it already holds (the state of a wrapper *object*: _function, _timeout ...)
+        self.tdict = st.sym_ref("wrapper.__dict__", "dict")
+        self.fdict = st.sym_ref("function.__dict__", "dict")
+        st.assume(self.tdict != self.fdict)
+        self.t0 = self.wf_dict(it, self.tdict, "td")
+        self.f0 = f0 = self.wf_dict(it, self.fdict, "fd")
+        st.assume(QFact(lambda k: z3.Implies(z3.Select(f0["has"], k),
+                                             z3.And(self.has_attr(self.fn, k), self.attr_of(self.fn, k) == z3.Select(f0["val"], k))),
+                        sort=Val, pattern=lambda k: z3.Select(f0["has"], k), name="fattr"))
+        for n in ("__name__", "__doc__", "__wrapped__"):
+            st.instantiate_at(it.mk_str(n))
         for n in ("__name__", "__doc__", "__wrapped__"):
             st.assume(z3.Not(self.readonly(self.target, it.mk_str(n))))
         for n in ("__name__", "__doc__"):
             st.assume(self.has_attr(self.fn, it.mk_str(n)))
+
+    def not_among(self, key, upto=None):
+        """key is none of the (first `upto`) copied attribute names"""
+        arr, lo, n = self.names
+        return z3.And([z3.Or(z3.BoolVal(False) if upto is None else (lo + i >= upto), z3.Select(arr, lo + i) != key)
+                       for i in range(n)])
 
     def loop_spec(self, it, node, env):
         if not isinstance(node, ast.For):
             return None
         st = it.st
         src = it.eval(node.iter, env)
+        if lib.concrete_items(it, src) is None:
+            return None                      # the __dict__ copy loop: summarised by the engine (dict merge), no invariant
         arr, lo, hi = lib.seq_view(it, src)
+        self.names = (arr, lo, len(lib.concrete_items(it, src)))
 
         def inv(it2, env2, k):
-            g = it2.st.ghost
             j = z3.Int("j!mi")
+            key = z3.Const("key!mi", Val)
             nm = z3.Select(arr, j)
+            p, t0, f0, pf = dict_parts(it2, self.tdict), self.t0, self.f0, dict_parts(it2, self.fdict)
             return [("attributes-processed-so-far-are-copied-when-present-and-writable",
                      z3.ForAll([j], z3.Implies(z3.And(lo <= j, j < k, self.has_attr(self.fn, nm), z3.Not(self.readonly(self.target, nm))),
-                                               z3.And(z3.Select(g["w_has"], nm), z3.Select(g["w_val"], nm) == self.attr_of(self.fn, nm)))))]
-
-        def havoc(it2):
-            g = it2.st.ghost
-            g["w_has"] = it2.st.fresh("w_has", V.ArrVB)
-            g["w_val"] = it2.st.fresh("w_val", V.ArrVV)
+                                               z3.And(z3.Select(p["has"], nm), z3.Select(p["val"], nm) == self.attr_of(self.fn, nm))))),
+                    ("only-the-listed-attributes-of-the-wrapper-are-written(frame)",
+                     z3.ForAll([key], z3.Implies(self.not_among(key, k),
+                                                 z3.And(z3.Select(p["has"], key) == z3.Select(t0["has"], key),
+                                                        z3.Select(p["val"], key) == z3.Select(t0["val"], key))))),
+                    ("the-wrapped-callable-is-not-modified(frame)",
+                     z3.And(pf["has"] == f0["has"], pf["val"] == f0["val"]))]
 
         def on_exit(it2, env2, k):
-            self.names = (arr, lo, hi)
-        return dict(name="attributes-loop", inv=inv, havoc_ghost=[havoc], exit=on_exit, force=True)
+            pass
+        return dict(name="attributes-loop", inv=inv, havoc_containers=True, exit=on_exit, force=True)
 
     def on_return(self, it, ret):
         st = it.st
-        g = st.ghost
         st.check("P4:the-wrapper-itself-is-returned", ret == self.target)
-        arr, lo, hi = getattr(self, "names", (None, None, None))
+        p, t0 = dict_parts(it, self.tdict), self.t0
+        names = getattr(self, "names", None)
         for n in ("__name__", "__doc__"):
             nm = it.mk_str(n)
-            listed = z3.BoolVal(False) if arr is None else z3.Or([z3.Select(arr, lo + i) == nm for i in range(12)] and
-                                                                  [z3.And(lo + i < hi, z3.Select(arr, lo + i) == nm) for i in range(12)])
+            listed = z3.BoolVal(False) if names is None else z3.Or([z3.Select(names[0], names[1] + i) == nm for i in range(names[2])])
             st.check(f"P4:{n}-is-among-the-copied-attributes", listed)
             st.check(f"P4:{n}-of-the-wrapper-equals-the-originals",
-                     z3.And(z3.Select(g["w_has"], nm), z3.Select(g["w_val"], nm) == self.attr_of(self.fn, nm)))
+                     z3.And(z3.Select(p["has"], nm), z3.Select(p["val"], nm) == self.attr_of(self.fn, nm)))
         w = it.mk_str("__wrapped__")
-        st.check("P4:__wrapped__-is-the-original-function", z3.And(z3.Select(g["w_has"], w), z3.Select(g["w_val"], w) == self.fn))
+        st.check("P4:__wrapped__-is-the-original-function", z3.And(z3.Select(p["has"], w), z3.Select(p["val"], w) == self.fn))
+        if names is not None:
+            key = st.fresh_val("own_attribute")
+            st.instantiate_at(key)
+            st.check("P4:attributes-the-wrapper-already-had-are-not-overwritten(a-wrapper-object-keeps-its-own-state)",
+                     z3.Implies(z3.And(z3.Select(t0["has"], key), self.not_among(key), key != w),
+                                z3.And(z3.Select(p["has"], key), z3.Select(p["val"], key) == z3.Select(t0["val"], key))))
+        pf, f0 = dict_parts(it, self.fdict), self.f0
+        st.check("P4:the-wrapped-callable-is-left-untouched", z3.And(pf["has"] == f0["has"], pf["val"] == f0["val"]))
 
     def on_raise(self, it, exc):
         it.st.check("P4:mimicking-never-raises", z3.BoolVal(False))
